@@ -266,7 +266,7 @@ def directed_cases():
     return out
 
 # ------------------------------------------------------------------ the search
-def search(run, n_random, directed=True):
+def search(run, n_random, directed=True, with_model=True):
     rng = run.rng
     gen = xpgen.TreeGen(rng)
     cases = []      # {'kind','doc','tree'}
@@ -335,7 +335,10 @@ def search(run, n_random, directed=True):
     # implementation and model
     ilines = ['v %s %s' % (enc(sp['s']), enc(xpgen.DOCS[cases[sp['case']]['doc']])) for sp in spellings]
     rc, iout = lib.run_bin(lib.rust_bin(), ['xparse'], ilines, timeout=600, shards=min(8, lib.NPROC))
-    rc, mout = lib.run_bin(lib.model_bin('xparse'), ['xparse'], ['d %s' % enc(sp['s']) for sp in spellings], timeout=900, shards=lib.NPROC)
+    if with_model:
+        rc, mout = lib.run_bin(lib.model_bin('xparse'), ['xparse'], ['d %s' % enc(sp['s']) for sp in spellings], timeout=900, shards=lib.NPROC)
+    else:
+        mout = [None] * len(spellings)
     if len(iout) != len(spellings) or len(mout) != len(spellings):
         run.tie_breaks.append('xparse: %d spellings, %d implementation lines, %d model lines' % (len(spellings), len(iout), len(mout)))
         return
@@ -344,7 +347,7 @@ def search(run, n_random, directed=True):
         dump, rest, val = split_impl(il)
         sp['dump'], sp['rest'], sp['val'], sp['iline'] = dump, rest, val, il
         ipart = il.split(' # V ')[0]
-        if ipart != ml:
+        if ml is not None and ipart != ml:
             run.tie_breaks.append('xparse correspondence: %r: implementation %r, model %r' % (sp['s'], ipart[:200], ml[:200]))
         if dump is not None:
             creq.append((sp, 'canon ' + dump))
@@ -468,7 +471,7 @@ def nesting_cases(depths):
         out.append(('ops-%d' % d, ' or '.join(['1'] * d) + ' or'))
     return out
 
-def parser_totality(run, limit_s=5.0):
+def parser_totality(run, limit_s=5.0, with_model=True):
     """the parser answers (accept / reject) on nested, hostile and garbage expressions within a time limit,
     never panics, never aborts.  Records failing inputs under property C06-parser in run.failing_inputs."""
     rng = run.rng
@@ -518,7 +521,9 @@ def parser_totality(run, limit_s=5.0):
     lines = ['s ' + enc(s) for s in strings]
     t0 = time.time()
     rc, out = lib.run_bin(lib.rust_bin(), ['xparse'], lines, timeout=120)
-    rcm, mout = lib.run_bin(lib.model_bin('xparse'), ['xparse'], lines, timeout=600, shards=lib.NPROC)
+    mout = []
+    if with_model and os.path.exists(lib.model_bin('xparse')):
+        rcm, mout = lib.run_bin(lib.model_bin('xparse'), ['xparse'], lines, timeout=600, shards=lib.NPROC)
     for i, s in enumerate(strings):
         run.evaluations += 1
         run.nontrivial.add(s)
@@ -552,10 +557,10 @@ def check(run):
             run.tie_breaks.append('prod correspondence did not run: %s' % ex)
     if okr and mok.get('xparse'):
         grammar_correspondence(run, 6000 if thorough else 500)
-    if okr and mok.get('xparse') and sok.get('xparse'):
-        search(run, 4000 if thorough else 250)
-    if okr and mok.get('xparse'):
-        parser_totality(run)
+    if okr and sok.get('xparse'):
+        search(run, 4000 if thorough else 250, with_model=bool(mok.get('xparse')))
+    if okr:
+        parser_totality(run, with_model=bool(mok.get('xparse')))
     return run.finish(level='proof',
         rule='a case = one concrete spelling (string) of a generated tree; distinct by string; every spelling is evaluated on a document and compared with the other spellings of its tree',
         assumptions=['model of the nom combinators (Model/Peg.v) tied by the prod and xparse correspondences only',
